@@ -130,6 +130,27 @@ impl Prop for C03 {
                     out.push(format!("dec {} {} x{}", v.type_name(), lim.show(), hex(&m)));
                 }
             }
+            // --- a generated structure under small limits (ties `read_array` and the leaf limits
+            //     inside structures to the model; accept/reject is compared, no separate oracle)
+            {
+                let names = dispatch::SCHEMAS;
+                let name = names[(case * 11 + 5) % names.len()].0;
+                let bytes = {
+                    let mut g = Gen::new(rng);
+                    g.lens = vec![0, 1, 2, 3, 4];
+                    g.struct_bytes(name, false).0
+                };
+                if bytes.len() <= 3000 {
+                    let lim = Lim {
+                        max_str: *rng.pick(&[0usize, 1, 2, 3, 4, 5, 300]),
+                        max_bytes: *rng.pick(&[0usize, 1, 2, 3, 4, 5, 300]),
+                        max_arr: *rng.pick(&[0usize, 1, 2, 3, 4, 300]),
+                        max_depth: 64,
+                        max_msg: 0,
+                    };
+                    out.push(format!("sdec {} {} x{}", name, lim.show(), hex(&bytes)));
+                }
+            }
             // --- chunks
             if case % 2 == 0 {
                 let size: u32 = match rng.below(8) {
@@ -234,6 +255,26 @@ impl Runner for R {
                         }
                         _ => Verdict::Ok,
                     }
+                };
+                (line, verdict)
+            }
+            ["sdec", name, opts, h] => {
+                let (lim, bytes) = match (Lim::parse(opts), unhex(h)) {
+                    (Some(l), Some(b)) => (l, b),
+                    _ => return ("bad-op".to_string(), Verdict::Ok),
+                };
+                let (line, out) = run_sdec(name, &lim, &bytes);
+                // soundness on the implementation: what was accepted under small limits is
+                // accepted under generous ones too and re-encodes to the same bytes
+                let verdict = match out {
+                    Some(Ok((pos, re, _, _))) => {
+                        let g = Lim { max_str: 1 << 20, max_bytes: 1 << 20, max_arr: 1 << 16, max_depth: 64, max_msg: 0 };
+                        match dispatch::decode_struct(name, &bytes, &g.options()) {
+                            Some(Ok((p2, re2, _, _))) if p2 == pos && re2 == re => Verdict::Ok,
+                            _ => Verdict::fail("limit_monotone", name, "accepted under small limits but differently under generous ones"),
+                        }
+                    }
+                    _ => Verdict::Ok,
                 };
                 (line, verdict)
             }
